@@ -131,17 +131,13 @@ theorem C20_mul_complete_half (a b : UInt64) (h : a.toNat * b.toNat < 2 ^ 63) :
 /-- the addition guard is exact -/
 theorem C20_add_exact (a b : UInt64) :
     _cbor_safe_to_add a b = true ↔ a.toNat + b.toNat < 2 ^ 64 := by
+  -- robust against the shape of the comparison(s): everything is pushed to natural numbers and left to `omega`
   unfold _cbor_safe_to_add
-  simp only [Bool.and_eq_true, decide_eq_true_eq, ge_iff_le]
   have ha := a.toNat_lt
   have hb := b.toNat_lt
-  constructor
-  · rintro ⟨h1, _⟩
-    have := UInt64.le_iff_toNat_le.mp h1
-    rw [UInt64.toNat_add] at this
-    omega
-  · intro h
-    constructor <;> (apply UInt64.le_iff_toNat_le.mpr; rw [UInt64.toNat_add]; omega)
+  simp only [Bool.and_eq_true, Bool.or_eq_true, decide_eq_true_eq, ge_iff_le, gt_iff_lt, UInt64.le_iff_toNat_le, UInt64.lt_iff_toNat_lt,
+    UInt64.toNat_add]
+  omega
 
 /-- the signalling sum is the exact mathematical sum, or 0 when an operand is 0 or the sum does not fit -/
 theorem C20_sadd (a b : UInt64) :
